@@ -5967,8 +5967,10 @@ class LazyContainer(dict):
             index = self._struct._subconsindexes[index] # KeyError
         if index in self._values:
             return self._values[index]
+        fallback = stream_tell(self._stream, self._path)
         stream_seek(self._stream, self._offsets[index], 0, self._path) # KeyError
         parseret = self._struct.subcons[index]._parsereport(self._stream, self._context, self._path)
+        stream_seek(self._stream, fallback, 0, self._path)
         self._values[index] = parseret
         return parseret
 
